@@ -68,8 +68,13 @@ class PollOracle:
         return s
 
 
+U_FAKE = Z.zmq
+
+
 def fresh_world():
     World.reset()
+    Z.zmq = U_FAKE            # (a system-level harness of the same check may have installed the simulated network)
+    CLOCK.source = None
     Z.ZMQContext.context = (None, 0)
     CLOCK.ms = 0
 
